@@ -260,7 +260,7 @@ struct Worker
 					put(d, new H(*slot[s]), obj[s]);
 				break;
 			case 1:
-				if (slot[s] && slot[d] && d != s)
+				if (slot[s] && slot[d]) // d == s: a handle assigned to itself
 				{
 					*slot[d] = *slot[s];
 					obj[d] = obj[s];
@@ -482,7 +482,13 @@ void runCount(const Plan& p)
 		tasks[(size_t)t].start([&, t]() {
 			for (int k : ops[(size_t)t])
 			{
-				int v = k == 0 ? ++cnt : k == 1 ? --cnt : (int)cnt;
+				int v;
+				if (k == 0)
+					v = ++cnt;
+				else if (k == 1)
+					v = --cnt;
+				else
+					v = cnt;
 				if (v < lo || v > hi)
 					__sync_fetch_and_add(badp, 1);
 			}
